@@ -43,9 +43,30 @@ pub struct Alphabet {
     pub fifo_ttls: Vec<Option<u64>>,
     /// extra ops that are always offered
     pub extra: Vec<Op>,
+    /// extra maintenance ops (listed after the generated ones)
+    pub extra_maint: Vec<Op>,
 }
 
 impl Alphabet {
+    /// the quick tier's alphabet: one watermark (the tight one, plus a watermark-0 flush so that
+    /// old versions stay in the history), one variant per kind of maintenance
+    pub fn lean() -> Self {
+        Self {
+            put: true,
+            del: true,
+            rotate: true,
+            flush: true,
+            leveled: vec![0],
+            major: vec![1],
+            movedown: vec![(0, 1)],
+            pulldown: vec![(0, 1)],
+            wms: vec![Wm::Tight],
+            reopen: true,
+            extra_maint: vec![Op::Flush { w: Wm::Zero }],
+            ..Default::default()
+        }
+    }
+
     pub fn core() -> Self {
         Self {
             put: true,
@@ -226,6 +247,7 @@ pub fn enabled_from(a: &Alphabet, d: &Driver, hist: &[Op]) -> Vec<Op> {
             }
         }
     }
+    out.extend(a.extra_maint.iter().cloned());
     for (lo, hi) in &a.drop_ranges {
         out.push(Op::DropRange {
             lo: lo.clone(),
